@@ -23,7 +23,7 @@ pub static C19: C19Check = C19Check;
 
 #[derive(Clone, Debug, Serialize, Deserialize, PartialEq)]
 pub struct EvSpec {
-    /// light | full | no_trg | two_trg | bad_trg | unknown_bank | bad_adc | chrono | seq | other
+    /// light | full (forward model) | no_trg | two_trg | bad_trg | unknown_bank | bad_adc | chrono | seq | other
     pub kind: String,
     pub seed: u64,
     /// TRG clock ticks since the previous main event
@@ -85,6 +85,14 @@ pub fn event_banks(e: &EvSpec, run: u32, trg_ts: u32) -> (u16, BankList) {
         "chrono" => (4, vec![("CBF1".into(), r.bytes(8)), ("CBF3".into(), r.bytes(4))]),
         "seq" => (8, vec![("SEQ2".into(), r.bytes(40))]),
         "other" => (*r.pick(&[2u16, 3, 16, 0x7FFF]), vec![("ATAT".into(), r.bytes(80)), ("XXXX".into(), r.bytes(5))]),
+        "full" => {
+            // forward-model event (simulation run): non-empty vertex columns
+            let n = r.usize(2, 3);
+            let noise = if r.chance(1, 2) { 0.0 } else { 2.0 };
+            let mut ev = crate::fwd::random_event(&mut r, n, noise);
+            ev.trg_timestamp = trg_ts;
+            (1, crate::fwd::banks(&ev))
+        }
         kind => {
             let out = e.serial.wrapping_mul(3).wrapping_add(7);
             let mut trg = TrgSpec::simple(trg_ts, out);
@@ -162,8 +170,9 @@ fn build(scn: &Scn) -> Built {
                 banks: banks.into_iter().map(|(name, data)| Bank { name, data }).collect(),
             });
         }
-        let initial = base + 100 * k as u32;
-        let final_ts = if k + 1 < scn.files.len() { base + 100 * (k as u32 + 1) - (k as u32 % 2) } else { initial + 50 };
+        // consecutive files are contiguous: initial(k+1) - final(k) in {0, 1}
+        let initial = base + 2 * k as u32;
+        let final_ts = if k + 1 < scn.files.len() { initial + 1 + (k as u32 % 2) } else { initial + 50 };
         files.push(MidasFile {
             big_endian: f.big_endian,
             run_number: scn.run_number,
@@ -292,6 +301,7 @@ impl Check for C19Check {
         let run_number = *r.pick(&[u32::MAX, u32::MAX, 11084, 11200, 9277, 10418]);
         let mut serial = r.below(1000) as u32;
         let mut files = Vec::new();
+        let mut full_budget = if index % 3 == 0 { 2 } else { 0 };
         let bad_kinds = ["no_trg", "two_trg", "bad_trg", "unknown_bank", "bad_adc"];
         for _ in 0..nf {
             let ne = match r.below(10) {
@@ -310,6 +320,13 @@ impl Check for C19Check {
                     15..=17 => "other",
                     x if x < 18 + bad_rate => *r.pick(&bad_kinds),
                     _ => "light",
+                };
+                // a few forward-model events (vertex columns non-empty; > 16-wire blocks)
+                let kind = if kind == "light" && run_number == u32::MAX && full_budget > 0 && r.chance(1, 6) {
+                    full_budget -= 1;
+                    "full"
+                } else {
+                    kind
                 };
                 // undecodable events at the start / end of files are interesting
                 let kind = if (k == 0 || k + 1 == ne) && r.chance(1, 4) { *r.pick(&bad_kinds) } else { kind };
@@ -373,7 +390,23 @@ impl Check for C19Check {
                 stats.fault("file_of_other_run");
             }
             Some(FileFault::DupInitialTimestamp { a, b }) if *a < built.files.len() && *b < built.files.len() && a != b => {
-                built.files[*b].initial_timestamp = built.files[*a].initial_timestamp;
+                // two files of the run start within the same second (a very short file): all
+                // other consistency conditions (contiguity of consecutive files) still hold, so the
+                // duplicate initial timestamp is the ONLY reason to refuse the set
+                let n = built.files.len();
+                // chronological order with `b` right after `a`
+                let mut order: Vec<usize> = (0..n).filter(|k| k != a && k != b).collect();
+                let at = (*a).min(*b).min(order.len());
+                order.insert(at, *a);
+                order.insert(at + 1, *b);
+                let mut t = built.files[0].initial_timestamp;
+                for &k in &order {
+                    let initial = if k == *b { built.files[*a].initial_timestamp } else { t };
+                    let fin = if k == *a || k == *b { initial } else { initial + (k as u32 % 2) };
+                    built.files[k].initial_timestamp = initial;
+                    built.files[k].final_timestamp = fin;
+                    t = fin + 1;
+                }
                 stats.fault("duplicate_initial_timestamp");
             }
             Some(FileFault::UnknownExtension { file, ext }) if *file < built.files.len() => {
